@@ -1,5 +1,5 @@
 (* Proofs/ProfileProofs.v — lemmas about Model/Profile.v (C12). *)
-From Coq Require Import List NArith Bool Lia String Ascii.
+From Coq Require Import List NArith Bool Lia.
 From Verif Require Import Base.Str Base.StrFacts Gen.GenProfile Gen.GenInternalGit Model.Profile.
 Import ListNotations.
 Open Scope N_scope.
@@ -556,4 +556,100 @@ Proof.
   unfold find_sub in *. cbn. change (is_dash gen_hooks_flag) with true. cbn.
   change (takes_value_in gen_value_globals gen_hooks_flag) with true.
   rewrite H. reflexivity.
+Qed.
+
+(* ------------------------------------------------------------------ assembled statements *)
+
+Lemma strip_safe :
+  (forall p args g s r, find_sub args = Some (g, s, r) ->
+     exists r', strip_profile_conflicts p args = g ++ s :: r' /\ from_dd r' = from_dd r /\
+                (forall t, In t (before_dd r') -> In t (before_dd r) /\ should_drop p t = false)) /\
+  (forall p args g s r, find_sub args = Some (g, s, r) ->
+     exists r', args_with_internal_git_profile p args = g ++ s :: r' /\ from_dd r' = from_dd r) /\
+  (forall args, strip_profile_conflicts General args = args /\ args_with_internal_git_profile General args = args) /\
+  (forall p args, find_sub args = None ->
+     strip_profile_conflicts p args = args /\ args_with_internal_git_profile p args = args) /\
+  (forall g s r, globals_ok g -> is_dash s = false -> find_sub (g ++ s :: r) = Some (g, s, r)).
+Proof.
+  split; [|split; [|split; [|split]]].
+  - intros p args g s r H. destruct p.
+    + exists r. rewrite strip_general. split; [exact (proj1 (find_sub_with_spec _ _ _ _ _ _ H))|].
+      split; [reflexivity|]. intros t Ht. split; [exact Ht|reflexivity].
+    + exists (strip_tail PatchParse r). rewrite (strip_shape PatchParse _ _ _ _ H ltac:(discriminate)).
+      split; [reflexivity|]. split; [apply strip_tail_from_dd|apply strip_tail_survivors].
+    + exists (strip_tail NumstatParse r). rewrite (strip_shape NumstatParse _ _ _ _ H ltac:(discriminate)).
+      split; [reflexivity|]. split; [apply strip_tail_from_dd|apply strip_tail_survivors].
+    + exists (strip_tail RawDiffParse r). rewrite (strip_shape RawDiffParse _ _ _ _ H ltac:(discriminate)).
+      split; [reflexivity|]. split; [apply strip_tail_from_dd|apply strip_tail_survivors].
+  - intros p args g s r H.
+    assert (G : forall q, q <> General -> exists r', args_with_internal_git_profile q args = g ++ s :: r' /\ from_dd r' = from_dd r).
+    { intros q Hq. eexists. rewrite (awp_shape _ _ _ _ _ H Hq). split; [reflexivity|].
+      rewrite (from_dd_app _ _ (missing_pins_nodd q _)). apply strip_tail_from_dd. }
+    destruct p; try (apply G; discriminate).
+    exists r. rewrite awp_general. split; [exact (proj1 (find_sub_with_spec _ _ _ _ _ _ H))|reflexivity].
+  - intros args. split; reflexivity.
+  - intros p args H. split; [apply strip_no_sub; exact H|apply awp_no_sub; exact H].
+  - intros g s r Hg Hs. apply find_sub_globals; assumption.
+Qed.
+
+Lemma pins_present p args g s r o :
+  find_sub args = Some (g, s, r) -> In o (profile_options p) -> ~ In o g -> ~ In o (from_dd r) ->
+  exists r', find_sub (args_with_internal_git_profile p args) = Some (g, s, r') /\
+             In o (before_dd r') /\ from_dd r' = from_dd r /\
+             (~ In o r -> count_str o (args_with_internal_git_profile p args) = 1%nat).
+Proof.
+  intros Hf Ho Hg Hd.
+  assert (Hp : p <> General) by (intros E; subst; destruct Ho).
+  assert (Hs : is_dash s = false) by (exact (proj2 (find_sub_with_spec _ _ _ _ _ _ Hf))).
+  eexists. split; [exact (awp_find_sub p args g s r Hf Hp)|].
+  split; [|split].
+  - rewrite (before_dd_app _ _ (missing_pins_nodd p _)). exact (pin_in_region p g s r o Hs Ho Hg Hd).
+  - rewrite (from_dd_app _ _ (missing_pins_nodd p _)). apply strip_tail_from_dd.
+  - intros Hr. rewrite (awp_shape p args g s r Hf Hp).
+    assert (Hst : ~ In o (strip_tail p r)) by (intros HI; apply Hr; eapply In_strip_tail; eauto).
+    assert (Hso : str_eqb s o = false).
+    { apply str_eqb_neq. intros E. subst. destruct (pin_facts p o Ho) as [D _]. congruence. }
+    rewrite count_str_app. cbn [count_str]. rewrite Hso. rewrite count_str_app.
+    rewrite (count_str_notin o g Hg). rewrite (count_str_notin o _ Hst).
+    rewrite (count_str_nodup o (missing_pins p (g ++ s :: strip_tail p r))).
+    + reflexivity.
+    + unfold missing_pins. apply filter_nodup. apply pins_nodup.
+    + apply missing_pins_in; [exact Ho|]. intros HI. apply in_app_or in HI as [HI|HI]; [contradiction|].
+      destruct HI as [HI|HI]; [|contradiction]. subst. rewrite str_eqb_refl in Hso. discriminate.
+Qed.
+
+Lemma config_independent p cfg1 cfg2 args g s r :
+  find_sub args = Some (g, s, r) -> pins_not_outside p g r -> survivors_tame p r ->
+  fmt_agree_on (pinned_comps p)
+    (effective_fmt cfg1 (args_with_internal_git_profile p args))
+    (effective_fmt cfg2 (args_with_internal_git_profile p args)).
+Proof.
+  intros Hf Ho Ht c Hc.
+  rewrite (profile_pins p cfg1 args g s r Hf Ho Ht c Hc).
+  rewrite (profile_pins p cfg2 args g s r Hf Ho Ht c Hc). reflexivity.
+Qed.
+
+Lemma drop_complete p c t v w :
+  ~ (p = PatchParse /\ c = CAlgorithm) ->
+  canonical p c = Some v -> tok_effect c t = Some w -> w <> v -> should_drop p t = true.
+Proof.
+  intros Hn. destruct (drop_complete_all p c) as [H|H]; [contradiction|].
+  apply drop_complete_sound. exact H.
+Qed.
+
+Lemma pins_not_outside_b_spec p g r : pins_not_outside_b p g r = true <-> pins_not_outside p g r.
+Proof.
+  unfold pins_not_outside_b, pins_not_outside. rewrite forallb_forall. split.
+  - intros H o Ho. specialize (H o Ho). apply andb_true_iff in H as [H1 H2].
+    apply negb_true_iff in H1. apply negb_true_iff in H2.
+    split; apply mem_str_false; assumption.
+  - intros H o Ho. destruct (H o Ho) as [H1 H2]. apply andb_true_iff.
+    split; apply negb_true_iff; apply mem_str_false; assumption.
+Qed.
+
+Lemma survivors_tame_b_spec p r : survivors_tame_b p r = true <-> survivors_tame p r.
+Proof.
+  unfold survivors_tame_b, survivors_tame. rewrite forallb_forall. split.
+  - intros H t Ht Hd. specialize (H t Ht). rewrite Hd in H. exact H.
+  - intros H t Ht. destruct (should_drop p t) eqn:E; [reflexivity|]. cbn. apply H; assumption.
 Qed.
